@@ -58,6 +58,7 @@ InFails(e) ==
   THEN LET p == e.position  p0 == Decode(p.start) IN
        (IF ToFen(p0, p.half, p.full) # p.fen THEN {<<"TOOL", "driver-fen", D(p.fen)>>} ELSE {})
 
+  ELSE IF Has(e, "go") /\ Has(e, "nocontract") THEN {}     \* numbers beyond TLC's integers: the contract is not evaluated here
   ELSE IF Has(e, "go")
   THEN LET toks == e.toks
            tc == ParseGo(toks)
@@ -83,7 +84,7 @@ InStep(e) ==
   THEN LET legal == Legal(sc.pos) IN
        [sc EXCEPT !.go = [active |-> TRUE, t |-> e.t, line |-> e.line,
                           slice |-> IF sc.pos.stm = 0 THEN e.slice_w ELSE e.slice_b,
-                          legal |-> legal, infos |-> <<>>, answers |-> 0,
+                          legal |-> legal, infos |-> <<>>, answers |-> 0, foreign |-> 0,
                           probe |-> IF Has(e, "probe") THEN e.probe ELSE "", timed |-> Has(e, "timed") /\ e.timed,
                           notime |-> Has(e, "notime") /\ e.notime]]
   ELSE IF Has(e, "isready") THEN [sc EXCEPT !.ready = TRUE]
@@ -145,14 +146,19 @@ BestFails(e) ==
 \* and not recorded for the current go.
 Foreign(e) == s.go.active /\ e.info.ok /\ e.info.time > (e.t - s.go.t) + 1
 
+\* one late line per previous search is the benign race; a previous search that KEEPS printing into the current one is not
+MaxForeign == 2
 OutFails(e) ==
-  CASE e.k = "info" -> (IF s.go.active /\ ~Foreign(e) THEN InfoFails(s.go, e.info) ELSE {})
+  CASE e.k = "info" -> (IF s.go.active /\ ~Foreign(e) THEN InfoFails(s.go, e.info)
+                        ELSE IF s.go.active /\ Foreign(e) /\ s.go.foreign >= MaxForeign
+                        THEN {<<"C18", "lines-of-a-previous-search", D(e.info.raw)>>} ELSE {})
     [] e.k = "bestmove" -> BestFails(e)
     [] e.k = "readyok" -> {}
     [] OTHER -> {}
 
 OutStep(e) ==
-  CASE e.k = "info" -> IF s.go.active /\ e.info.ok /\ ~Foreign(e) THEN [s EXCEPT !.go.infos = Append(@, e.info)] ELSE s
+  CASE e.k = "info" -> IF s.go.active /\ e.info.ok /\ ~Foreign(e) THEN [s EXCEPT !.go.infos = Append(@, e.info)]
+                       ELSE IF s.go.active /\ Foreign(e) THEN [s EXCEPT !.go.foreign = @ + 1] ELSE s
     [] e.k = "bestmove" ->
          IF ~s.go.active THEN s
          ELSE LET ms == {m \in s.go.legal : MoveText(m) = e.move} IN
